@@ -130,6 +130,34 @@ pub fn gen_datum(rng: &mut Rng, uniq: &mut u32) -> Datum {
             for _ in 0..rng.usize_below(6) {
                 s.push(*rng.pick(&[b';', b',', b'"', b' ', b'x', b'\'', b':']));
             }
+            match rng.below(24) {
+                // long texts with string delimiters anywhere (chunked copying, length counters)
+                0 | 1 | 2 => {
+                    let len = *rng.pick(&[15usize, 16, 17, 31, 32, 33, 63, 64, 65, 127, 128, 129, 255, 256, 257, 300]) + rng.usize_below(3);
+                    while s.len() < len {
+                        s.push(b'a' + (s.len() % 26) as u8);
+                    }
+                    s.truncate(len);
+                    for _ in 0..rng.urange(1, 3) {
+                        // (often right at / next to a power of two)
+                        let pos = if rng.chance(1, 2) {
+                            let p2 = *rng.pick(&[8usize, 16, 32, 64, 128, 256]);
+                            (p2 + rng.usize_below(3)).saturating_sub(2)
+                        } else {
+                            rng.usize_below(len.max(1))
+                        };
+                        if pos < s.len() {
+                            s[pos] = b'"';
+                        }
+                    }
+                }
+                // not ASCII: cannot be sent as string data, the handler's finish() reports it
+                3 => {
+                    let pos = rng.usize_below(s.len());
+                    s[pos] = *rng.pick(&[0xe9u8, 0x80, 0xff]);
+                }
+                _ => {}
+            }
             Datum::Str(B(s))
         }
         8 => {
